@@ -28,7 +28,8 @@ struct Frame {
     // At the end of a multi-assignment expression (see `finalize_id_accesses`),
     // accessed IDs that weren't locally assigned at the time of access are then counted as
     // non-local accesses.
-    pending_accesses: HashSet<ConstantIndex>,
+    // The number of pending accesses is counted per ID, an assignment's LHS cancels a single access.
+    pending_accesses: HashMap<ConstantIndex, usize>,
     // Pending assignments are stored along with the expression depth of the assignment's RHS.
     // The assignment only counts as being made once the RHS has been parsed,
     // nested expressions in the RHS that get finalized earlier mustn't count it as assigned.
@@ -62,7 +63,7 @@ impl Frame {
 
     // Declare that an id has been accessed within the frame
     fn add_id_access(&mut self, id: ConstantIndex) {
-        self.pending_accesses.insert(id);
+        *self.pending_accesses.entry(id).or_default() += 1;
     }
 
     // Declare that an id is being assigned to within the frame
@@ -72,12 +73,19 @@ impl Frame {
             .insert(id, self.expression_depth + 1);
         // While an assignment expression is being parsed, the LHS id is counted as an access
         // until the assignment operator is encountered.
-        self.pending_accesses.remove(&id);
+        // Only the access made by the LHS id itself is cancelled,
+        // the id might have also been read earlier in the expression.
+        if let Some(count) = self.pending_accesses.get_mut(&id) {
+            *count -= 1;
+            if *count == 0 {
+                self.pending_accesses.remove(&id);
+            }
+        }
     }
 
     // At the end of an expression, determine which RHS accesses are non-local
     fn finalize_id_accesses(&mut self) {
-        for id in self.pending_accesses.drain() {
+        for (id, _count) in self.pending_accesses.drain() {
             if !self.ids_assigned_in_frame.contains(&id) {
                 self.accessed_non_locals.insert(id);
             }
